@@ -443,7 +443,8 @@ def run(ck: Checker) -> None:
     ck.guard("R-GATHER", lambda: check_gather(ck, ck.repo.func(NODE, "ASTNode.gather")))
     ck.guard("R-PRESENCE", lambda: T.r_presence(ck))
     ck.guard("R-PRESENCE", lambda: T.r_child_abc(ck))
-    ck.guard("R-REINSTALL", lambda: T.r_reinstall(ck))  # every class enumerates its own children (no accessor inherited from a base class)
+    ck.guard("R-REINSTALL", lambda: T.r_reinstall(ck))
+    ck.guard("R-TYPES-CACHE", lambda: T.r_types_cache(ck))  # the child fields enumerated are those of the class asked for  # every class enumerates its own children (no accessor inherited from a base class)
     ck.guard("R-ENUM-SHAPE", lambda: T.r_enum_shape(ck))
     ck.guard("R-ORDER-KEY", lambda: T.r_order_key(ck, gens=("_gen_get_child_nodes_func", "_gen_get_child_nodes_with_field_func", "_gen_iter_child_fields_func")))
     ck.guard("R-ORDER-KEY", lambda: T.r_gen_stateless(ck))
